@@ -12,9 +12,12 @@
     pstrand <strand|N> <N | strand len> <n>   n reads of Parent(strand=…, location=…).strand, asked twice: under cold
                                            caches / after Parents differing only in one strand were built
                                            -> ok <half> / <half>      half = <+|-|.|N>… | err:InvalidStrand
-    cdshist <letters> <ops> …             ops word over c (chunk_relative_codon_locations), n (num_chunk_relative_codons),
-                                           e (extract_sequence), v (has_valid_stop); the rest of the line (the CDS
-                                           literal for the implementation) is ignored: `letters` IS the coding sequence
+    cdshist <letters|_> <nchunk> <ntotal> <ops> …
+                                           ops word over c (chunk_relative_codon_locations), n (num_chunk_relative_codons),
+                                           e (extract_sequence), v (has_valid_stop), N (num_codons); the rest of the line
+                                           (the CDS literal for the implementation, optionally with a chunk window) is
+                                           ignored: `letters` IS the coding sequence seen on the parent, `nchunk` the number
+                                           of codon locations on the parent, `ntotal` the number of codons of the whole CDS
                                            -> ok <answer>…           n:<k> / Sequence:<letters> / str:<letters> / true|false / err!
     merge <own> <other>                   dict literal: <nkeys> (key <nvals> v…)…      `_merge_qualifiers` as coded (copies the sets)
                                            -> ok <result dict> <own dict after>
@@ -83,6 +86,7 @@ def pCdsOps (w : String) : Except String (List CdsOp) :=
     | 'n' => .ok CdsOp.numCodons
     | 'e' => .ok CdsOp.extract
     | 'v' => .ok CdsOp.validStop
+    | 'N' => .ok CdsOp.totalCodons
     | _ => .error s!"cdsop? {c}"
 
 def showAns : Ans → String
@@ -141,11 +145,12 @@ def ops : List (String × Op) := [
       -- the model has no process-wide cache: the answer under cold caches and after the siblings were built coincide
       pure s!"ok {half} / {half}"),
   ("cdshist", do
-      let letters ← tok; let w ← tok; let _ ← pRestToks
+      let lt ← tok; let nChunk ← pNat; let nTotal ← pNat; let w ← tok; let _ ← pRestToks
+      let letters := if lt = "_" then "" else lt
       match pCdsOps w with
       | .error e => throw e
       | .ok hist =>
-        let cfg : CdsCfg (List Char) := ⟨fun l => l, fun l => l, pathBWrapsAsCoded⟩
+        let cfg : CdsCfg (List Char) := ⟨fun l => l, fun l => l, pathBWrapsAsCoded, fun _ => nChunk, fun _ => nTotal⟩
         let r := cdsRun cfg (CdsState.fresh letters.toList) hist
         pure ("ok " ++ " ".intercalate (r.2.map showAns))),
   ("merge", do
